@@ -30,6 +30,15 @@ pub fn assert_minium_receive(
     Ok(Response::default())
 }
 
+// a native denom may be spelled exactly like a token contract address,
+// so the kind of the asset has to be part of its identity
+fn asset_key(asset_info: &AssetInfo) -> String {
+    match asset_info {
+        AssetInfo::NativeToken { denom } => format!("native:{}", denom),
+        AssetInfo::Token { contract_addr } => format!("token:{}", contract_addr),
+    }
+}
+
 pub fn assert_operations(operations: &[SwapOperation]) -> StdResult<()> {
     let mut ask_asset_map: HashMap<String, bool> = HashMap::new();
     for operation in operations.iter() {
@@ -40,8 +49,8 @@ pub fn assert_operations(operations: &[SwapOperation]) -> StdResult<()> {
             } => (offer_asset_info.clone(), ask_asset_info.clone()),
         };
 
-        ask_asset_map.remove(&offer_asset.to_string());
-        ask_asset_map.insert(ask_asset.to_string(), true);
+        ask_asset_map.remove(&asset_key(&offer_asset));
+        ask_asset_map.insert(asset_key(&ask_asset), true);
     }
 
     if ask_asset_map.keys().len() != 1 {
